@@ -97,9 +97,15 @@ impl Prop for C08 {
                 plan.fault = Plan::draw_fault(&mut rng, &bytes);
                 plan.io_once = rng.pct(30);
             }
-            steps.push(Step { input: Input::Raw(bytes), plan, cfg: 0 });
+            // 12% of deliveries: the caller has read 1-3 events itself (skipped prolog / envelope element)
+            let cfg = if rng.pct(12) { (rng.range(1, 3) as u16) << crate::session::CFG_PRECONSUME_SHIFT } else { 0 };
+            steps.push(Step { input: Input::Raw(bytes), plan, cfg });
         }
-        let replicas = vec![Replica { role: "client".into(), entropy: rng.u128(), steps, warmup: vec![] }];
+        let mut replicas = vec![Replica { role: "client".into(), entropy: rng.u128(), steps, warmup: vec![] }];
+        if rng.pct(20) {
+            super::add_warmup(&mut rng, &mut replicas[0], &[]);
+        }
+        super::decorate_role(&mut rng, &mut replicas[0]);
         Scenario::Session(Session { docs: vec![], alts: vec![], replicas, opts: vec![] })
     }
     fn exec(&self, sc: &Scenario, ctr: &mut Ctr) -> Result<Exec, String> {
@@ -111,13 +117,17 @@ impl Prop for C08 {
                     Input::Raw(_) => return Ok(skip("depth_over_200")),
                     _ => return Ok(skip("not_a_byte_case")),
                 }
-                if st.cfg != 0 {
+                if st.cfg & !crate::session::CFG_PRECONSUME_MASK != 0 {
                     return Ok(skip("non_default_reader_config"));
+                }
+                if st.cfg != 0 {
+                    bump(ctr, "fault.caller_preconsumed_events");
                 }
             }
         }
         let want = Want::default();
         let outs = run_session(s, &want)?;
+        super::count_decorations(s, ctr);
         let trace = trace_hash(&outs);
         let mut violation = None;
         let mut sim_steps = 0;
@@ -135,7 +145,7 @@ impl Prop for C08 {
                 add(ctr, "fault.io_error", st.stats.io_fired);
                 add(ctr, "fault.truncated_stream", st.stats.truncated);
                 bump(ctr, if hard { "deliveries.with_hard_fault" } else { "deliveries.fault_free_or_transparent" });
-                let exp = expected_verdict(&bytes, &step.plan, 0, !has_tree);
+                let exp = expected_verdict(&bytes, &step.plan, step.cfg, !has_tree);
                 bump(ctr, &format!("reach.verdict.{}", exp.class()));
                 if let Verdict::Syntax { pos, .. } = &exp {
                     if let Some(last) = step.plan.cuts.last() {
